@@ -197,7 +197,7 @@ def explore(prop, tier, seed, spec):
     distinct = set()
     for i, p in enumerate(plans):
         digs = [t[i]['digest'] for t in table]
-        rep.runs += len(table)
+        rep.runs += 1
         rep.events += base[i]['n_events'] * len(table)
         rep.evals += len(table) - 1
         if base[i]['n_events'] >= 3:
@@ -216,8 +216,7 @@ def explore(prop, tier, seed, spec):
             raise core.HarnessError(f'transcript difference of plan {p["xid"]} did not reproduce')
         reported += 1
         n_viol += 1
-        os.makedirs(os.path.join(core.VERIF_DIR, 'replays'), exist_ok=True)
-        path = os.path.join(core.VERIF_DIR, 'replays', f'C17-{seed}-{p["xid"]}.json')
+        path = os.path.join(driver.replays_dir(), f'C17-{seed}-{p["xid"]}.json')
         with open(path, 'w', encoding='utf-8') as f:
             json.dump({'kind': 'xproc', 'property': 'C17', 'oracle': 'C17.transcripts_equal', 'verif_seed': seed,
                        'run': p['xid'], 'seeds': pair, 'setarch': list(flags), 'plan': small,
@@ -233,12 +232,17 @@ def explore(prop, tier, seed, spec):
     rep.faults = {'hashseed_switch': len(plans) * (len(seeds) - 1),
                   'aslr_off_execution': len(plans) if has_setarch else 0,
                   'same_seed_repeat(determinism precondition)': len(plans)}
-    rep.extra = {'plans': len(plans), 'hashseeds': seeds, 'setarch_available': has_setarch,
+    rep.extra = {'plans': len(plans), 'executions': len(plans) * len(table), 'hashseeds': seeds,
+                 'setarch_available': has_setarch,
                  'interpreter_processes': sum(len(pr) for pr in procs),
-                 'distinct_rule_override': 'for C17 a case is one plan; it is non-trivial when it has >= 3 events and '
-                                           'was executed under all listed hash seeds; distinct = distinct baseline '
-                                           'transcript digests'}
+                 'oracle_evaluations_rule': 'transcript comparisons against the baseline execution',
+                 'rule': ('one evaluation = one plan (a seeded history from world D, L or peer-less S with the query '
+                          'battery as query set) executed in fresh interpreters under every listed PYTHONHASHSEED, '
+                          'once more under the first seed (determinism precondition) and once with ASLR off when '
+                          'setarch -R is permitted; all transcripts must be byte-identical; a plan is non-trivial '
+                          'when it has >= 3 events; distinct = distinct baseline transcript digests among them')}
+    rep.drop = ('distinct_abstract_states', 'distinct_abstract_states_rule', 'nontrivial_runs', 'runs')
     driver.write_evidence(rep, spec, n_viol)
-    print(f'{prop} {tier} seed={seed}: plans={len(plans)} executions={rep.runs} hashseeds={seeds} '
+    print(f'{prop} {tier} seed={seed}: plans={len(plans)} executions={len(plans) * len(table)} hashseeds={seeds} '
           f'setarch={has_setarch} distinct_transcripts={len(distinct)} wall={time.time() - rep.t0:.1f}s exit={exit_code}')
     return exit_code
